@@ -206,6 +206,21 @@ func main() {
 		if bad > 0 {
 			os.Exit(1)
 		}
+	case "frame":
+		w, err := loadWorld(repo, verif)
+		if err != nil {
+			fmt.Fprintln(os.Stderr, "load:", err)
+			os.Exit(2)
+		}
+		fs, n, err := frameCheck(w)
+		if err != nil {
+			fmt.Println("ERROR", err)
+			os.Exit(2)
+		}
+		for _, f := range fs {
+			fmt.Printf("%s: %s: %s\n", f.Pos, f.Func, f.What)
+		}
+		fmt.Printf("%d functions, %d findings\n", n, len(fs))
 	case "list":
 		w, err := loadWorld(repo, verif)
 		if err != nil {
